@@ -50,6 +50,17 @@ impl<T> List<T> {
     }
 }
 
+impl<T> Drop for List<T> {
+    // Unlink the nodes iteratively. The default drop glue recurses once per node and
+    // overflows the stack for long histories.
+    fn drop(&mut self) {
+        let mut link = self.head.take();
+        while let Some(node) = link {
+            link = Arc::into_inner(node).and_then(|mut node| node.next.take());
+        }
+    }
+}
+
 impl<T> Clone for List<T> {
     fn clone(&self) -> Self {
         Self {
